@@ -2,7 +2,7 @@
 from typing import Any, Callable, Dict, List
 
 
-def _strategy_offered_by(pack, strategy, parent, extra_offers=(), children=()):
+def _strategy_offered_by(pack, strategy, parent, extra_offers=(), children=(), others=()):
     """ids of the pack elements that offer `strategy` for class `parent`: the strategy itself, a factory
     yielding it for the parent, or a factory that - applied to the parent or to one of the rule's
     children (factories may yield ready rules whose parent differs from the class they are given) -
@@ -14,7 +14,9 @@ def _strategy_offered_by(pack, strategy, parent, extra_offers=(), children=()):
     for el in list(pack) + list(extra_offers):
         if isinstance(el, StrategyFactory):
             found = False
-            for given in (parent,) + tuple(children):
+            # ... or applied to any other class the search has seen (a factory may yield ready rules of classes that are
+            # neither the class it is given nor a child of the rule: look-ahead factories)
+            for given in (parent,) + tuple(children) + tuple(c for c in others if c != parent and c not in children):
                 try:
                     for x in el(given):
                         if isinstance(x, AbstractRule):
@@ -68,11 +70,17 @@ def rule_desc(rule, namer: Callable[[Any], str], pack, extra_offers=()) -> dict:
         except (StrategyDoesNotApply, Exception):
             d["reapplies"] = False
         if not d["empty_strategy"]:
-            d["offered"] = _strategy_offered_by(pack, rule.strategy, rule.comb_class, extra_offers, tuple(rule.children))
+            d["offered"] = _strategy_offered_by(pack, rule.strategy, rule.comb_class, extra_offers, tuple(rule.children),
+                                                others=tuple(getattr(namer, "names", {}) or ()))
     return d
 
 
 def spec_rules_desc(rules, namer, pack, extra_offers=()) -> List[dict]:
+    rules = list(rules)
+    for r in rules:  # every class of the rule list is known by name before any rule is described (see `others` above)
+        namer(r.comb_class)
+        for c in r.children:
+            namer(c)
     return [rule_desc(r, namer, pack, extra_offers) for r in rules]
 
 
